@@ -112,6 +112,8 @@ class Rule(object):
         self.min_instances = n
 
     def check_guard(self):
+        if self.findings:
+            return  # a rule that reports a construct is not vacuous
         if len(self.instances) < self.min_instances:
             raise AnalysisError(
                 "%s: only %d rule instances found, %d were confirmed by hand on the "
